@@ -487,6 +487,7 @@ func replaceRefs(o map[string]any, old, new string) {
 // ---- kinds of verification methods (type x key material) -------------------------------------------------
 
 var keyMaterialMembers = []string{"publicKeyJwk", "publicKeyBase58", "publicKeyMultibase"}
+var relationships = []string{"assertionMethod", "capabilityInvocation", "authentication", "keyAgreement", "capabilityDelegation"}
 
 var (
 	edPub   = ed25519.NewKeyFromSeed(func() []byte { h := sha256.Sum256([]byte("verif-didstore-ed25519")); return h[:] }()).Public().(ed25519.PublicKey)
@@ -668,9 +669,16 @@ func (w *world) defective(cd *cdoc, df string) ([]byte, error) {
 			j["kid"] = "key-1"
 		}
 	case "vm-null":
+		// a null entry and nothing that refers to a verification method
 		o["verificationMethod"] = []any{nil}
-		for _, rel := range []string{"assertionMethod", "capabilityInvocation"} {
+		for _, rel := range relationships {
 			delete(o, rel)
+		}
+	case "vm-null-referenced":
+		// a null entry while the relationships still refer to verification methods
+		o["verificationMethod"] = []any{nil}
+		if _, ok := o["assertionMethod"]; !ok {
+			o["assertionMethod"] = []any{id0}
 		}
 	case "vm-no-key":
 		for _, m := range keyMaterialMembers {
